@@ -41,6 +41,8 @@ def replay_artifact(exe, path, work, timeout=100):
 
 
 def run_fuzz(r, target, pid, secs, empty_corpus_too=False, prefix=True):
+    if os.environ.get("VERIF_STOP_ON_FIRST") and (r.stats.failures or r.violations):
+        return
     d = buildmod.build(("fuzz",))
     exe = os.path.join(d, "fuzz", target)
     if not os.path.exists(exe):
